@@ -6,6 +6,7 @@ package reservation
 
 import (
 	"fmt"
+	"strings"
 	"testing"
 
 	corev1 "k8s.io/api/core/v1"
@@ -123,10 +124,40 @@ func (w *c05World) opRsvAssume() bool {
 	obj := s.delivered.DeepCopy()
 	obj.Status.NodeName = kit.Pick(w.r, w.nodes)
 	w.c.Op("scheduler: Reserve of reserve pod -> assumeReservation(%s on %s)", obj.UID, obj.Status.NodeName)
+	if w.seenUnbound[obj.UID] {
+		w.c.Count("rsv_unbound_then_bound_in_cache", 1)
+		if w.indexed && c05Indexed(obj.Labels) {
+			w.c.Count("rsv_unbound_then_bound_in_cache_indexed_labels", 1)
+		}
+	}
 	w.cache.assumeReservation(obj)
 	s.assumed = obj
 	w.live[obj.UID] = true
 	w.c.Count("op_rsv_assume", 1)
+	return true
+}
+
+// opRsvSeenUnbound: the cache is handed the reservation while it has no node yet (updateReservation with the
+// delivered, not yet placed object). The cache supports this order by contract (addToIndex: "Reservations not
+// yet bound to a node are skipped ... They will be picked up on the subsequent updateReservation when the
+// binding becomes available"; the package's TestReservationCacheIndexUnboundReservationSkipped does the same);
+// today's plugin handler filters such objects out, so this is a cache-level history.
+func (w *c05World) opRsvSeenUnbound() bool {
+	var cand []*c05RsvSlot
+	for _, s := range w.rsvs {
+		if s.cur != nil && s.assumed == nil && s.delivered != nil && s.delivered.UID == s.cur.UID && c05RsvUnassigned(s.delivered) && !w.live[s.delivered.UID] {
+			cand = append(cand, s)
+		}
+	}
+	if len(cand) == 0 {
+		return false
+	}
+	s := kit.Pick(w.r, cand)
+	w.c.Op("cache: updateReservation(%s) before the reservation is placed", c05RsvStr(s.delivered))
+	w.cache.updateReservation(s.delivered)
+	w.live[s.delivered.UID] = true
+	w.seenUnbound[s.delivered.UID] = true
+	w.c.Count("op_rsv_seen_unbound", 1)
 	return true
 }
 
@@ -212,7 +243,11 @@ func (w *c05World) opRsvUpdate(dimsMayChange bool) bool {
 			schedulingv1alpha1.ReservationAllocatePolicyAligned, schedulingv1alpha1.ReservationAllocatePolicyRestricted})
 	case 4:
 		what = "restricted options"
-		c05GenOptions(r, res)
+		if cl := c05GenOptions(r, res); res.Spec.AllocatePolicy == schedulingv1alpha1.ReservationAllocatePolicyRestricted {
+			if must, _ := w.assignedTo(res.UID); len(must) > 0 {
+				w.c.Count("op_update_options_with_assigned_"+cl, 1)
+			}
+		}
 	case 5:
 		what = "held back amount"
 		inner := corev1.ResourceList{}
@@ -420,6 +455,14 @@ func (w *c05World) opRsvDeliver() bool {
 		w.c.Count("op_rsv_deliver_delete", 1)
 	default:
 		w.c.Op("informer(plugin handler): OnUpdate %s(%s) -> %s merged=%v", old.Name, old.UID, c05RsvStr(nv), merged)
+		if active(nv) && w.seenUnbound[nv.UID] && w.live[nv.UID] {
+			if ri := w.cache.reservationInfos[nv.UID]; ri != nil && ri.GetNodeName() == "" {
+				w.c.Count("rsv_unbound_then_bound_in_cache", 1)
+				if w.indexed && c05Indexed(nv.Labels) {
+					w.c.Count("rsv_unbound_then_bound_in_cache_indexed_labels", 1)
+				}
+			}
+		}
 		if !active(nv) {
 			w.markUnavailable(nv.UID)
 		}
@@ -593,6 +636,15 @@ func (w *c05World) opPodSchedule(deliverSome func()) bool {
 	w.reqs[pod.UID] = req
 	w.flights = append(w.flights, &c05Flight{slot: s, pod: pod, rUID: ri.UID(), rName: ri.GetName(), node: ri.GetNodeName()})
 	return true
+}
+
+func c05Indexed(labels map[string]string) bool {
+	for k := range labels {
+		if k == c05IdxKey || strings.HasPrefix(k, c05IdxPrefix) {
+			return true
+		}
+	}
+	return false
 }
 
 func sortRInfos(xs []*frameworkext.ReservationInfo) {
@@ -884,7 +936,7 @@ func (w *c05World) opPodDeliver() bool {
 
 func TestVerifC05Ledger(t *testing.T) {
 	kit.Run(t, kit.Config{Property: "C05", Unit: "ledger", Quick: 4000, Thorough: 120000,
-		Rule: "histories of 60-200 operations over 3-6 reservation names and 4-10 pod names (one of them a reservation-operating-mode pod in 30% of the cases) on 2-3 nodes: API create / update (labels, unschedulable, allocate-once, policy, restricted options, held-back amount, reserved amounts, owners, deletion timestamp) / terminate / delete / re-create with a new uid, in-order informer deliveries to the real plugin handlers with the scheduler-wide DeleteReservation before / after / lagging, scheduling cycles (matchable lookup, allocate-once and restricted gates, interleaved deliveries, assumePods), PreBind, bind, Unreserve (with and without the forget handler), binds by another scheduler, resize, terminate, delete; selector index enabled in half of the cases; 30% of the cases may change the reserved dimensions of a live reservation; ledger + index walker after every operation; distinct = (#live reservations, #assigned pods, #nodes with matchable, #nodes with allocated, index enabled, #bindings in flight, scheduler-wide handler lagging); non-trivial = a pod left (delete / terminate / Unreserve) a reservation that had before been made unavailable or removed while it had assigned pods"},
+		Rule: "histories of 60-200 operations over 3-6 reservation names and 4-10 pod names (one of them a reservation-operating-mode pod in 30% of the cases) on 2-3 nodes: API create / update (labels, unschedulable, allocate-once, policy, restricted options, held-back amount, reserved amounts, owners, deletion timestamp) / terminate / delete / re-create with a new uid, the cache seeing a reservation before it is placed (updateReservation without a node, then bound with unchanged labels), in-order informer deliveries to the real plugin handlers with the scheduler-wide DeleteReservation before / after / lagging, scheduling cycles (matchable lookup, allocate-once and restricted gates, interleaved deliveries, assumePods), PreBind, bind, Unreserve (with and without the forget handler), binds by another scheduler, resize, terminate, delete; selector index enabled in half of the cases; 30% of the cases may change the reserved dimensions of a live reservation; ledger + index walker after every operation; distinct = (#live reservations, #assigned pods, #nodes with matchable, #nodes with allocated, index enabled, #bindings in flight, scheduler-wide handler lagging); non-trivial = a pod left (delete / terminate / Unreserve) a reservation that had before been made unavailable or removed while it had assigned pods"},
 		func(c *kit.Case) {
 			r := c.R
 			nm := newNominator(nil, nil)
@@ -892,10 +944,10 @@ func TestVerifC05Ledger(t *testing.T) {
 			w := &c05World{c: c, r: r, cache: cache,
 				rh: &reservationEventHandler{cache: cache, rrNominator: nm}, ph: &podEventHandler{cache: cache, nominator: nm},
 				fact: map[types.UID]types.UID{}, assumed: map[types.UID]types.UID{}, may: map[types.UID]types.UID{}, reqs: map[types.UID]corev1.ResourceList{},
-				owner: map[types.UID]types.UID{}, live: map[types.UID]bool{}, wentAway: map[types.UID]bool{}, dimsSince: map[string]map[corev1.ResourceName]bool{}}
+				owner: map[types.UID]types.UID{}, live: map[types.UID]bool{}, wentAway: map[types.UID]bool{}, dimsSince: map[string]map[corev1.ResourceName]bool{}, seenUnbound: map[types.UID]bool{}}
 			w.indexed = r.Bool()
 			if w.indexed {
-				cache.setReservationSelectorIndexConfig(&config.ReservationSelectorIndexArgs{Enabled: true, KeyPrefixes: []string{"idx-"}, Keys: []string{"zone"}})
+				cache.setReservationSelectorIndexConfig(&config.ReservationSelectorIndexArgs{Enabled: true, KeyPrefixes: []string{c05IdxPrefix}, Keys: []string{c05IdxKey}})
 			}
 			for i, n := 0, r.Range(2, 3); i < n; i++ {
 				w.nodes = append(w.nodes, fmt.Sprintf("node-%d", i))
@@ -931,7 +983,9 @@ func TestVerifC05Ledger(t *testing.T) {
 			for step := 0; step < nops; step++ {
 				done := false
 				for try := 0; try < 6 && !done; try++ {
-					switch r.Weighted(7, 5, 5, 2, 8, 3, 3, 16, 6, 9, 13, 4, 8, 4, 3, 7, 4, 18) {
+					switch r.Weighted(7, 5, 5, 2, 8, 3, 3, 16, 6, 9, 13, 4, 8, 4, 3, 7, 4, 18, 4) {
+					case 18:
+						done = w.opRsvSeenUnbound()
 					case 0:
 						done = w.opRsvCreate()
 					case 1:
